@@ -123,7 +123,23 @@ func genC19(c *ctx) {
 			parts = append(parts, coqw.Pair(coqw.N(uint64(code)), pk(t.String())))
 			descs = append(descs, fmt.Sprintf("%d:%q", code, t.String()))
 		})
-		st.Add(&cs.Case{Coq: coqw.App("KParts", pk(hdr), coqw.List(parts)),
+		// printing the bundle and reading it back yields the same entries (empty ones included, wherever they stand)
+		printFail := ""
+		if b.Len() > 0 {
+			re, _ := bundle.ParseBundleWithFilter("loc", b.Header(), bundle.KeepAll)
+			var again []string
+			bundle.ForEach(re, func(t bundle.Token) { again = append(again, t.String()) })
+			var first []string
+			bundle.ForEach(b, func(t bundle.Token) { first = append(first, t.String()) })
+			single := len(first) == 1 && (first[0] == "" || strings.EqualFold(first[0], "FlyV1") || strings.EqualFold(first[0], "Bearer"))
+			if !single && strings.Join(first, "\x00") != strings.Join(again, "\x00") {
+				printFail = fmt.Sprintf("printing a bundle of %d entries and parsing the header back yields %d entries: %q -> %q", len(first), len(again), b.Header(), again)
+			}
+			if b.String() != strings.Join(first, ",") {
+				printFail = fmt.Sprintf("bundle.String() = %q, its entries joined are %q", b.String(), strings.Join(first, ","))
+			}
+		}
+		st.Add(&cs.Case{Coq: coqw.App("KParts", pk(hdr), coqw.List(parts)), OracleFail: printFail,
 			Desc: map[string]any{"op": "bundle.parseToks", "header": hdr, "impl_parts": descs}, Class: class, Nontrivial: true})
 	}
 	n := 500
@@ -135,6 +151,9 @@ func genC19(c *ctx) {
 		toks := make([][]byte, 0, nt)
 		for j := 0; j < nt; j++ {
 			toks = append(toks, randTokBytes(r))
+		}
+		if nt >= 2 && r.P(1, 4) {
+			toks[r.Intn(nt)] = toks[r.Intn(nt)] // the same token more than once (a header may carry a discharge twice)
 		}
 		hdr := macaroon.ToAuthorizationHeader(toks...)
 		st.Add(&cs.Case{Coq: coqw.App("KToHeader", coqw.ListOf(toks, func(b []byte) string { return coqw.Packed(b) }), pk(hdr)),
@@ -242,7 +261,8 @@ func genC19(c *ctx) {
 	}
 	// scheme-stripping corner cases
 	for _, h := range []string{"", " ", "FlyV1", "FlyV1 ", " FlyV1  ", "Bearer FlyV1 x", "bearer\tx", "Bearer\t x", "FLYV1 bEARER fm2_QQ==", "Basic fm2_QQ==",
-		"FlyV1 FlyV1 FlyV1", "x y", "FlyV1  fm2_QQ==", "FlyV1\nfm2_QQ==", "FlyV1 \n fm2_QQ== \t", "Bearerx fm2_QQ==", "Bear er fm2_QQ==", "FlyV1 fm2_QQ==,fm2_QUI=", "fm2_QQ== FlyV1"} {
+		"FlyV1 FlyV1 FlyV1", "x y", "FlyV1  fm2_QQ==", "FlyV1\nfm2_QQ==", "FlyV1 \n fm2_QQ== \t", "Bearerx fm2_QQ==", "Bear er fm2_QQ==", "FlyV1 fm2_QQ==,fm2_QUI=", "fm2_QQ== FlyV1",
+		",fm2_QQ==", "FlyV1 ,,fm2_QQ==", "fm2_QQ==,,", ",", ",,x", "FlyV1 ,fm2_QQ==,", "x,,y", ", ,fm2_QQ=="} {
 		addStrip(h)
 		addParse(h, "strip-corner", true)
 		addParts(h, "parts/strip-corner")
